@@ -1,7 +1,60 @@
-(** C02 - statements follow (work in progress in this commit) *)
+(** C02 - Attach, move, detach and children assignment have exactly the
+    specified effect.  Only statements; proofs are [exact <lemma>]. *)
 Require Import AT.Model.Base AT.Model.Heap AT.Model.Mutate AT.Spec.MutSpec.
+Require AT.Proofs.MutParent AT.Proofs.MutHistory.
+Import AT.Proofs.MutParent.
 
-Theorem C02_noop_example :
-  fst (run_op true false no_faults reentry_fuel (SetParent 1 (VNode 0)) (start (attach_links (init 2) 1 0))) = Ok tt.
+(** [n.parent = v] (v a node or None), hooks not raising, from any point of
+    any history (any state satisfying the C01 invariant, any hook counter and
+    log so far): the call is refused with LoopError exactly when v is n or n
+    is an ancestor of v (and v is not already n's parent); otherwise it
+    succeeds and the final link state is the pointwise specification
+    [eff_set_parent]: n leaves its former parent's list (the others keep their
+    order), is appended last to v's list, n.parent = v, every other field of
+    every node is unchanged - and nothing at all changes when v already is
+    n's parent.  The hook log is the specified one (C16). *)
+Theorem C02_parent : forall typed asrt n v s,
+  let h := heap_of s in
+  Inv h -> n < length h -> (match v with Some q => q < length h | None => True end) ->
+  set_parent typed asrt no_faults n (opt_value v) s =
+  if loop_refused h n v then (Err LoopError, s)
+  else (Ok tt, st_after s (eff_set_parent h n v) (log_set_parent h n v)).
+Proof. exact set_parent_run. Qed.
+Print Assumptions C02_parent.
+
+(** a non-node parent: TreeError for NodeMixin-based classes, nothing changed *)
+Theorem C02_parent_non_node : forall asrt faults n s,
+  set_parent true asrt faults n VOther s = (Err TreeError, s).
 Proof. reflexivity. Qed.
-Print Assumptions C02_noop_example.
+Print Assumptions C02_parent_non_node.
+
+(** the pointwise specification agrees with the two atomic link updates *)
+Theorem C02_effect_is_detach_then_attach : forall h n p q,
+  n < length h -> p < length h -> q < length h -> parent h n = Some p -> p <> q ->
+  eff_set_parent h n (Some q) = attach_links (detach_links h n p) n q.
+Proof. exact eff_move. Qed.
+Print Assumptions C02_effect_is_detach_then_attach.
+
+(** Not yet proved in Coq (kept visible): the children assignment / deletion
+    and constructor effects, and their refusal iff.  They are decided on every
+    explored call by evaluating this very specification on the
+    implementation's observed states (Corr/Mut.v, spec02). *)
+Definition C02_children_full : Prop :=
+  forall typed asrt o s, Inv (heap_of s) -> valid_op (length (heap_of s)) o ->
+    fst (run_op typed asrt no_faults reentry_fuel o s)
+      = (match must_refuse typed (heap_of s) o with Some e => Err e | None => Ok tt end) /\
+    (must_refuse typed (heap_of s) o = None ->
+     heap_of (snd (run_op typed asrt no_faults reentry_fuel o s)) = expected_heap typed (heap_of s) o).
+
+Example C02_example :
+  let h := attach_links (attach_links (attach_links (init 4) 1 0) 2 0) 3 1 in
+  (* 0 -> (1 -> 3, 2): moving 1 under 2 gives 0 -> (2 -> (1 -> 3)); 0 may not go under 3 *)
+  Inv h /\
+  eff_set_parent h 1 (Some 2) =
+    [ {| cparent := None; cchildren := [2] |}; {| cparent := Some 2; cchildren := [3] |};
+      {| cparent := Some 0; cchildren := [1] |}; {| cparent := Some 1; cchildren := [] |} ] /\
+  loop_refused h 0 (Some 3) = true.
+Proof.
+  cbv zeta. split; [apply AT.Proofs.MutHistory.inv_b_sound; vm_compute; reflexivity|].
+  split; vm_compute; reflexivity.
+Qed.
